@@ -16,10 +16,61 @@ def run(chk):
     ]
     ok = chk.check_theorems()
     rc.run_runner_check(chk, "C01", "proj_C01", OPTS, theorems_ok=ok)
+    overlap_part(chk)
     if ok:
         import source_tie
         source_tie.runner_ties(chk)
 
 
+def overlap_cases():
+    out = []
+    for kind in ("nested", "tasks"):
+        for mode in ("call", "execute"):
+            for klass, cap in (("TRANSIENT", {"per_class": 1}), ("RATE_LIMIT", {"per_class": 2}), ("UNKNOWN", {"unknown": 1}),
+                               ("UNKNOWN", {"unknown": 2, "per_class": 1}), ("SERVER_ERROR", {"per_class": 0})):
+                for inner in (0, 1):
+                    out.append({"kind": kind, "klass": klass, "cap": cap, "max_attempts": 6, "mode": mode, "inner_failures": inner})
+    return out
+
+
+def overlap_verdict(c, r):
+    n = min(v for v in (c["cap"].get("per_class"), c["cap"].get("unknown") if c["klass"] == "UNKNOWN" else None) if v is not None)
+    want = min(c["max_attempts"], n + 1)
+    what = f"{c['kind']} calls on one policy, class {c['klass']}, caps {c['cap']}, max_attempts {c['max_attempts']}, {c['mode']}()"
+    if r["end"][0] in ("driver_error", "raise"):
+        return f"{what}: ended with {r['end']}"
+    if r["outer_invocations"] != want:
+        return (f"{what}: the outer call invoked its operation {r['outer_invocations']} times while other calls ran on the same policy "
+                f"object; its own caps allow {want}")
+    iw = min(c["inner_failures"], n) + 1
+    if any(k != iw for k in r["inner_invocations"]):
+        return f"{what}: an inner call invoked its operation {r['inner_invocations']} times, its own caps allow {iw}"
+    return None
+
+
+def overlap_part(chk):
+    """calls that overlap on one policy object (a nested call made by the retried operation; a second coroutine working while the
+    first is suspended in its backoff): every call counts its own failures"""
+    import common
+    cases = overlap_cases()
+    res = common.run_driver("c01_overlap_driver", cases)
+    bad = [(c, r, m) for c, r in zip(cases, res) for m in [overlap_verdict(c, r)] if m]
+    chk.coverage["overlapping_calls_on_one_policy"] = {"cases": len(cases), "note": "oracle only (the model runs calls one after another)"}
+    chk.coverage["evaluations"] = chk.coverage.get("evaluations", 0) + len(cases)
+    if bad:
+        c, r, m = bad[0]
+        chk.violation({"kind": "oracle", "part": "overlap", "what": m, "overlap_case": c, "observed": r, "driver": "c01_overlap_driver",
+                       "also_failing": len(bad)})
+
+
 def replay(path):
+    import json
+    r = json.load(open(path))
+    if "overlap_case" in r:
+        import common
+        o = common.run_driver("c01_overlap_driver", [r["overlap_case"]])[0]
+        m = overlap_verdict(r["overlap_case"], o)
+        print(o)
+        print("oracle:", m or "holds")
+        return 1 if m else 0
     return rc.replay_runner(path)
